@@ -190,7 +190,8 @@ static const char* WKT_POOL[] = {
     // empty one level below a non-empty parent: an EMPTY hole ring (legal WKT), alone, next to a real hole, inside multi / collection parents
     "POLYGON ((0 0, 10 0, 10 10, 0 10, 0 0), EMPTY)", "POLYGON ((0 0, 10 0, 10 10, 0 10, 0 0), EMPTY, (2 2, 4 2, 4 4, 2 4, 2 2))", "POLYGON ((0 0, 10 0, 10 10, 0 10, 0 0), (2 2, 4 2, 4 4, 2 4, 2 2), EMPTY)",
     "MULTIPOLYGON (((0 0, 10 0, 10 10, 0 10, 0 0), EMPTY), ((20 20, 30 20, 30 30, 20 20)))", "GEOMETRYCOLLECTION (POLYGON ((0 0, 4 0, 4 4, 0 0), EMPTY), LINESTRING (1 1, 9 9))",
-    "POLYGON Z ((0 0 1, 10 0 1, 10 10 1, 0 10 1, 0 0 1), EMPTY)" };
+    "POLYGON Z ((0 0 1, 10 0 1, 10 10 1, 0 10 1, 0 0 1), EMPTY)", "CURVEPOLYGON ((0 0, 10 0, 10 10, 0 10, 0 0), EMPTY)", "CURVEPOLYGON (CIRCULARSTRING (0 0, 1 1, 2 0, 1 -1, 0 0), EMPTY)",
+    "MULTISURFACE (((0 0, 10 0, 10 10, 0 10, 0 0), EMPTY))" };
 static const int N_WKT = sizeof WKT_POOL / sizeof WKT_POOL[0];
 static const char* WKT_CLASS(int i) { return i < 20 ? "ordinary" : i < 41 ? "empty" : i < 53 ? "nonfinite" : i < 61 ? "invalid" : i < 70 ? "zerolen" : i < 83 ? "curved" : i < 91 ? "huge" : i < 97 ? "configured" : "emptyhole"; }
 // ---- structured literals, generated (deterministic, not random): all live in the frame [0,100]^2 so that any container / content pair is in
@@ -263,6 +264,7 @@ static std::string hexs(const std::string& s) { return hexbytes((const unsigned 
 static std::string unhex(const std::string& h) { std::string o; for (size_t i = 0; i + 1 < h.size(); i += 2) o.push_back((char) std::stoi(h.substr(i, 2), nullptr, 16)); return o; }
 
 // ----------------------------------------------------------------------------------------------- callbacks
+static long g_cntObs = -1, g_cntExp = -1;   // a count reported by the last call and the same count recomputed by the harness another way (fact Q)
 static long g_lastHits = -1;     // callback invocations of the last GEOSSTRtree_query_r
 static void qcb(void* item, void* ud) { ((std::vector<void*>*) ud)->push_back(item); }
 static int xycb(double* x, double* y, void* ud) { long m = (long) (intptr_t) ud; if (m == 1) { *x += 1; *y -= 1; } else if (m == 2) { *x = NAN; } else if (m == 3) return 0; return 1; }
@@ -483,7 +485,12 @@ static void registerAll() {
     CLU(GEOSClusterEnvelopeDistance_r, "g d", GEOSClusterEnvelopeDistance_r(H, c.G(A(0)), A(1).d))
     CLU(GEOSClusterEnvelopeIntersects_r, "g", GEOSClusterEnvelopeIntersects_r(H, c.G(A(0))))
     reg("GEOSClusterInfo_getNumClusters_r", "ci", "cluster", 1, [](Ctx& c, std::vector<Val>& a) { return rInt((long) GEOSClusterInfo_getNumClusters_r(H, (const GEOSClusterInfo*) c.P(A(0)))); });
-    reg("GEOSClusterInfo_getClusterSize_r", "ci i", "cluster", 1, [](Ctx& c, std::vector<Val>& a) { return rInt((long) GEOSClusterInfo_getClusterSize_r(H, (const GEOSClusterInfo*) c.P(A(0)), (size_t) A(1).i)); });
+    // the size of cluster i is recounted from the cluster ids of the inputs (C++ view of the same object): fact Q<size>:<inputs whose id is i>
+    reg("GEOSClusterInfo_getClusterSize_r", "ci i", "cluster", 1, [](Ctx& c, std::vector<Val>& a) {
+        const GEOSClusterInfo* ci = (const GEOSClusterInfo*) c.P(A(0)); size_t i = (size_t) A(1).i; int m0 = g_msgs;
+        long sz = (long) GEOSClusterInfo_getClusterSize_r(H, ci, i);
+        if (g_msgs == m0) { auto ids = ((const geos::operation::cluster::Clusters*) ci)->getClusterIds(); long n = 0; for (auto id : ids) if (id == i) n++; g_cntObs = sz; g_cntExp = n; }
+        return rInt(sz); });
     reg("GEOSClusterInfo_getInputsForClusterN_r", "ci i", "cluster", 1, [](Ctx& c, std::vector<Val>& a) { return rView(BUF, GEOSClusterInfo_getInputsForClusterN_r(H, (const GEOSClusterInfo*) c.P(A(0)), (size_t) A(1).i)); });
     reg("GEOSClusterInfo_getClustersForInputs_r", "ci", "cluster", 1, [](Ctx& c, std::vector<Val>& a) { return rPtr(BUF, GEOSClusterInfo_getClustersForInputs_r(H, (const GEOSClusterInfo*) c.P(A(0)))); });
     reg("GEOSClusterInfo_destroy_r", "ciX", "destroy", 1, [](Ctx& c, std::vector<Val>& a) { GEOSClusterInfo_destroy_r(H, (GEOSClusterInfo*) c.P(A(0))); return rVoid(); });
@@ -611,7 +618,7 @@ struct Exec {
         // GEOSSTRtree_query_r: what a scan of the inserted items gives
         std::string Q = "Q-"; TreeItem qenv{}; bool isQuery = f.name == "GEOSSTRtree_query_r", isInsert = f.name == "GEOSSTRtree_insert_r", isRemove = f.name == "GEOSSTRtree_remove_r";
         if (isQuery || isInsert || isRemove) qenv = envItem(c.G(a[1]), isQuery ? nullptr : c.P(a[2]));
-        g_lastHits = -1;
+        g_lastHits = -1; g_cntObs = g_cntExp = -1;
         if (arm > 0) { g_armK = arm; g_polls = 0; g_fired = 0; GEOS_interruptCancel(); GEOS_interruptRegisterCallback(interruptcb); }
         g_curCall = no;
         Ret r = f.call(c, a);
@@ -626,6 +633,7 @@ struct Exec {
         if (isQuery && !msgs && arm == 0 && g_lastHits >= 0) { TreeMirror& tm = trees[a[0].id]; bool usable = !tm.unsure && qenv.finite; long scan = 0;
             for (auto& t : tm.items) { if (!t.finite) usable = false; if (!t.null && !qenv.null && !(t.x0 > qenv.x1 || t.x1 < qenv.x0 || t.y0 > qenv.y1 || t.y1 < qenv.y0)) scan++; }
             if (usable) Q = "Q" + std::to_string(g_lastHits) + ":" + std::to_string(scan); }
+        else if (!isQuery && !msgs && arm == 0 && g_cntObs >= 0) Q = "Q" + std::to_string(g_cntObs) + ":" + std::to_string(g_cntExp);
         if (arm > 0) { GEOS_interruptRegisterCallback(nullptr); GEOS_interruptCancel(); g_armK = 0; lastPolls = g_polls;
             istat["interrupt_armed_calls"]++; istat["interrupt_polls_seen"] += g_polls; if (g_polls) istat["interrupt_armed_calls_that_poll"]++;
             if (g_fired) { istat["interrupt_requested"]++; istat[msgs ? "interrupt_ended_with_error_and_message" : "interrupt_absorbed_call_completed"]++; } }
@@ -925,13 +933,21 @@ struct Gen {
             "GEOMETRYCOLLECTION EMPTY", "POINT (1 1)", "MULTIPOLYGON (((0 0, 3 0, 3 3, 0 3, 0 0)), ((2 2, 8 2, 8 8, 2 8, 2 2)), ((50 50, 51 50, 51 51, 50 50)))", "MULTIPOINT (EMPTY, (1 1), (2 2))", "MULTIPOINT ((NaN 0), (1 1))"};
         int g = lit(C[r.below(7)]); if (g < 0) return;
         static const char* F[] = {"GEOSClusterDBSCAN_r", "GEOSClusterGeometryDistance_r", "GEOSClusterGeometryIntersects_r", "GEOSClusterEnvelopeDistance_r", "GEOSClusterEnvelopeIntersects_r"};
-        int ci = callOn(F[r.below(5)], g, 10); if (ci < 0) return;
+        // distances around the spacing of the literals (1, about 14, about 28), so that clusters AND noise inputs occur; DBSCAN with minPoints 0..5
+        static const double EPS[] = {0, 1, 1.5, 2, 6, 15, 100, -1}; int fk = (int) r.below(5); int ci;
+        if (r.chance(25)) ci = callOn(F[fk], g, 10);
+        else if (fk == 0) ci = call1(F[0], {O(g), D(EPS[r.below(8)]), I((long) r.below(6))});
+        else if (fk == 1 || fk == 3) ci = call1(F[fk], {O(g), D(EPS[r.below(8)])});
+        else ci = call1(F[fk], {O(g)});
+        if (ci < 0) return;
         call1("GEOSClusterInfo_getNumClusters_r", {O(ci)});
         long nc = (long) ((const geos::operation::cluster::Clusters*) e.c.slots[ci].p)->getNumClusters();
         int ops = r.range(3, 7);
         for (int i = 0; i < ops; i++) { static const long OFF[] = {0, 0, 1, -1, -2, 2, 100000000, -1000}; long idx = r.chance(70) ? (long) r.below((uint64_t) (nc + 1)) + (r.chance(25) ? OFF[r.below(8)] : 0) : nc + OFF[r.below(8)];
             switch (r.below(3)) { case 0: call1("GEOSClusterInfo_getClusterSize_r", {O(ci), I(idx)}); break; case 1: call1("GEOSClusterInfo_getInputsForClusterN_r", {O(ci), I(idx)}); break;
                 default: call1("GEOSClusterInfo_getClustersForInputs_r", {O(ci)}); } }
+        // every cluster's size, the last one included (recounted from the ids of the inputs: fact Q)
+        if (r.chance(60)) for (long i = 0; i < nc && i < 8; i++) call1("GEOSClusterInfo_getClusterSize_r", {O(ci), I(i)});
         stat["scenario_cluster"]++;
     }
     // ---- SRID propagation per geometry class: one literal of every class (empty and not) gets a non-zero SRID and is then given as FIRST argument to
